@@ -15,7 +15,37 @@ import (
 	"time"
 )
 
+// genC12Copy: directed — a small trie (2..4 keys: branches with two children), committed, opened on a CopyRoot(level) copy;
+// the path of ONE key is exported and imported, then that key is deleted on both sides: the branch it leaves is reduced,
+// and the remaining sibling — a reference in the copy, an embedded short node in the export — has to merge the same way.
+func genC12Copy(r *rand.Rand, tier string, idx int) []string {
+	pool := wkeyPool(r, 2+r.Intn(3))
+	g := &wgen{r: r, pool: pool, live: map[string][]byte{}, commitd: map[string][]byte{}}
+	for k := range pool {
+		g.upd(k, wgenValue(r, k, false))
+	}
+	g.commit()
+	g.emit("recopy %d", r.Intn(5)-1)
+	victim := r.Intn(len(pool))
+	g.emit("getpath %x", pool[victim])
+	g.emit("import")
+	if r.Intn(2) == 0 {
+		g.emit("mdel %x", pool[victim])
+	} else {
+		g.emit("mupdel %x", pool[victim])
+	}
+	delete(g.live, pool[victim])
+	v := wgenValue(r, victim, false)
+	g.emit("mupd %x %x %d", pool[victim], v, wvalWeight(v))
+	g.emit("mdel %x", pool[victim])
+	g.emit("owners")
+	return g.ops
+}
+
 func genC12(r *rand.Rand, tier string, idx int) []string {
+	if idx%10 == 3 {
+		return genC12Copy(r, tier, idx)
+	}
 	shape := idx % 5 // 0,1: branch root; 2: shared-prefix root; 3: single entry; 4: empty
 	npool := 4 + r.Intn(14)
 	var pool []string
@@ -81,7 +111,18 @@ func genC12(r *rand.Rand, tier string, idx int) []string {
 		g.commit()
 	case 2:
 		g.commit()
-		g.reload()
+		if r.Intn(2) == 0 {
+			g.reload()
+		} else {
+			// the source is a trie opened on a COPY of the committed root: New(t.CopyRoot(level), storage) — short nodes and
+			// branches at the copy level are references in it
+			g.emit("recopy %d", r.Intn(6)-1)
+			g.live = map[string][]byte{}
+			for k, v := range g.commitd {
+				g.live[k] = v
+			}
+			g.dirty = false
+		}
 	default:
 		g.commit()
 		g.reload()
@@ -149,7 +190,7 @@ func genC12(r *rand.Rand, tier string, idx int) []string {
 func init() {
 	register(&Suite{
 		Name:        "c12",
-		Rule:        "source tries of every root shape (branch, shared-prefix short node, single entry, empty) over pools of 4..17 keys (every 100th case: comb-shaped tries of 62..65 keys in which one requested key has a sibling at every nibble depth — the longest export paths), in memory / committed at collapse levels -1..6 / reloaded (+ further changes); path export of 0..14 requested keys (present and absent, both sides of the threshold of 10); import; 6 mirrored updates / same-value rewrites / deletes (both entry points) of requested keys; non-trivial = at least 2 mutations and a successful import",
+		Rule:        "source tries of every root shape (branch, shared-prefix short node, single entry, empty) over pools of 4..17 keys (every 100th case: comb-shaped tries of 62..65 keys in which one requested key has a sibling at every nibble depth — the longest export paths), in memory / committed at collapse levels -1..6 / reloaded / opened on a CopyRoot(level) copy of the committed root (+ further changes); path export of 0..14 requested keys (present and absent, both sides of the threshold of 10); import; 6 mirrored updates / same-value rewrites / deletes (both entry points) of requested keys; non-trivial = at least 2 mutations and a successful import",
 		Gen:         genC12,
 		Run:         runWmpt,
 		CaseTimeout: 3 * time.Minute, // a stalled machine must not look like a hang; a real hang still fails the case
